@@ -367,7 +367,11 @@ func c30HTTPGen(r *vRand, i int) c30HTTPCase {
 		case 7:
 			q.NoInteg = true
 		case 8:
-			q.SHA = pick("", "  ", strings.ToUpper(q.SHA), " "+q.SHA+"\t", q.SHA[:63], q.SHA+"0", "g"+q.SHA[1:], "\u212a"+q.SHA[3:], c30SHA([]byte("other")), strings.Repeat("\u00e9", 32))
+			sha := q.SHA
+			if len(sha) != 64 { // an earlier mutation of this case already replaced the digest
+				sha = c30SHA([]byte("other-digest"))
+			}
+			q.SHA = pick("", "  ", strings.ToUpper(sha), " "+sha+"\t", sha[:63], sha+"0", "g"+sha[1:], "\u212a"+sha[3:], c30SHA([]byte("other")), strings.Repeat("\u00e9", 32))
 		case 9:
 			q.Alg = pick("", "SHA256 ", "md5", "sha-256", "\u017fha256", "none")
 		case 10:
